@@ -245,6 +245,12 @@ def results(sl):
                         s_and(*[thr["min"] <= v for v in thr_n]) & s_or(*[thr["min"] == v for v in thr_n])
                         & s_and(*[thr["max"] >= v for v in thr_n]) & s_or(*[thr["max"] == v for v in thr_n])
                         & (thr["mean"] * len(thr_n) == sum(thr_n)))
+            if thr["median"] is not None and thr["min"] is not None and thr["max"] is not None:
+                below = sum(core.ite(v < thr["median"], 1, 0) for v in thr_n)
+                above = sum(core.ite(v > thr["median"], 1, 0) for v in thr_n)
+                observe("throughput median is the median of the normal samples only (within their min/max, splits them in halves)",
+                        s_and(thr["min"] <= thr["median"], thr["median"] <= thr["max"], below * 2 <= len(thr_n), above * 2 <= len(thr_n))
+                        & ((thr["median"] * 2 == thr_n[0] + thr_n[1]) if len(thr_n) == 2 else (thr["median"] == thr_n[0]) if len(thr_n) == 1 else True))
         else:
             observe("no normal throughput sample => no throughput stats", thr["min"] is None and thr["max"] is None)
         if n > 0:
@@ -296,23 +302,37 @@ def file_race_store(sl):
     for name, attr in GLOBAL_SUMS:
         st.docs.append({"name": name, "value": g, "unit": "x", "sample-type": "normal", "meta": {}, "relative-time": 0, "per-shard": [g]})
     res = metrics.GlobalStatsCalculator(st, tr, ch)()
+    # a user may choose any race id; another race whose id merely LOOKS similar (matches it as a shell pattern) is in the same directory
+    RID, DECOY = [("race-1", "race-2"), ("8.13.0-[arm64]", "8.13.0-a"), ("run*", "run-other"), ("r?ce", "race")][concrete(fresh_int("race_id_spelling", 0, 3))]
     d = tempfile.mkdtemp(prefix="verif-c08-")
     try:
-        cfg = StubCfg({("system", "env.name"): "unittest", ("node", "root.dir"): d, ("system", "race.id"): "race-1", ("system", "list.max_results"): 10,
-                       ("system", "admin.track"): None, ("system", "list.races.benchmark_name"): None, ("system", "list.from_date"): None,
-                       ("system", "list.to_date"): None})
-        race = metrics.Race("2.12", "rev", "env", "race-1", datetime.datetime(2024, 1, 1, 12, 0, 0), "from-sources", {"name": "n"}, tr, {"p": 1}, ch, ["defaults"],
+        def cfg_for(rid):
+            return StubCfg({("system", "env.name"): "unittest", ("node", "root.dir"): d, ("system", "race.id"): rid, ("system", "list.max_results"): 10,
+                            ("system", "admin.track"): None, ("system", "list.races.benchmark_name"): None, ("system", "list.from_date"): None,
+                            ("system", "list.to_date"): None})
+
+        decoy = metrics.Race("2.12", "rev", "env", DECOY, datetime.datetime(2023, 1, 1, 12, 0, 0), "from-sources", {"name": "decoy"}, tr, {}, ch, ["defaults"], {}, {},
+                             results=metrics.GlobalStatsCalculator(_store(), tr, ch)())
+        metrics.FileRaceStore(cfg_for(DECOY)).store_race(decoy)
+        race = metrics.Race("2.12", "rev", "env", RID, datetime.datetime(2024, 1, 1, 12, 0, 0), "from-sources", {"name": "n"}, tr, {"p": 1}, ch, ["defaults"],
                             {}, {}, results=res)
-        store = metrics.FileRaceStore(cfg)
+        store = metrics.FileRaceStore(cfg_for(RID))
         store.store_race(race)
-        back = store.find_by_race_id("race-1")
-        listed = store.list()
+        try:
+            back = store.find_by_race_id(RID)
+        except Exception as e:  # noqa: BLE001
+            core.note("find_by_race_id raised", repr(e))
+            observe("a stored race is found again under its id, whatever characters the id contains", False)
+            return
+        listed = [r for r in store.list() if r.race_id != DECOY]
+        n_listed = len(store.list())
     finally:
         shutil.rmtree(d, ignore_errors=True)
+    observe("list shows both races", n_listed == 2)
     core.trace("n", n)
     core.note("values", (vals, g))
     res2 = metrics.GlobalStats(back.results)
-    observe("the stored race is found and listed", len(listed) == 1 and listed[0].race_id == "race-1" and back.race_id == "race-1")
+    observe("the stored race is found (not a similarly named one) and listed", len(listed) == 1 and listed[0].race_id == RID and back.race_id == RID)
     observe("race attributes survive the file", back.race_timestamp == race.race_timestamp and back.track_name == "tr" and back.challenge_name == "c"
             and back.user_tags == {"name": "n"} and back.track_params == {"p": 1} and back.rally_version == "2.12")
     observe("tasks survive the file", res2.tasks() == res.tasks())
